@@ -1,7 +1,7 @@
 """C12 -- incremental parsing equals one-shot parsing for any read fragmentation"""
 import random, re
 from .. import core, run as R, synth
-from .readerlib import both_modes, dump_dict, canon
+from .readerlib import both_modes, dump_dict, canon, rexact_corr, readsched_corr
 
 ID = 'C12'
 TARGETS = ['theories/Properties/C12.vo']
@@ -104,4 +104,21 @@ def run(ctx):
                         fail('row %s[%s] of a completed frame changed after call %d' % (m.group(1), m.group(2), k)); ok = False; break
             if not ok: break
     corr.sample({'version': list(reps[0].ver), 'frames': len(reps[0].frames), 'chunks': cases[2][1][1]})
+    # the in-progress row view (impl game::Game for ParseState, mutable Frame::transpose_one) after every event: implementation vs model,
+    # and each view line against the column rows of the same state
+    from .C13 import check_views
+    vcases = [('w%d' % i, [synth.emit(r).hex(), 'm']) for i, r in enumerate(reps[:(80 if thorough else 25)] + reps[-5:]) if r.frames]
+    vimpl, _ = both_modes(ctx, 'view', vcases, corr, parallel=16, timeout_ms=60000)
+    for cid, f in vcases:
+        corr.seen('view' + f[0]); corr.count('in_progress_views')
+        out = vimpl.get(cid) or ['?']
+        if out[0] != 'OK' or any(('PANIC' in l or l.startswith('ABORT')) for l in out):
+            corr.oracle_failures.append((cid, 'in-progress row view failed: %s' % [l[:100] for l in out if 'PANIC' in l or l.startswith(('ERR', 'ABORT', '?'))][:2],
+                                         {'mode': 'view', 'fields': f, 'replay_hex': f[0]})); continue
+        for k in sorted({int(l[4:l.index(']')]) for l in out if l.startswith('  v[')}):
+            if not check_views(out, '  s[%d] ' % k, '  v[%d] ' % k, corr, cid, f, None):
+                break
+    # the fragmenting-stream model: std read_exact over arbitrary schedules, and the whole reader over short reads + Interrupted
+    rexact_corr(ctx, corr, rng, 600 if thorough else 150)
+    readsched_corr(ctx, corr, rng, [synth.emit(r) for r in reps[:(120 if thorough else 30)]], 3, faults=False)
     return corr
